@@ -1,9 +1,11 @@
 package props
 
 import (
+	"crypto/ecdsa"
 	"encoding/base64"
 	"encoding/json"
 	"fmt"
+	"net/http"
 	"strings"
 	"testing"
 	"time"
@@ -422,7 +424,7 @@ func c01Body(s *simkit.Sim, rc *simkit.RunCtx) {
 			}
 			return evs[s.D.Decide("event", len(evs))]
 		}
-		switch ev := pick([]string{"verify", "verify", "tamper", "tamper", "advance", "advance-past-expiry", "revoke", "deactivate-issuer", "presentation", "presentation-tamper", "presentation-foreign", "backdated-with-later-key",
+		switch ev := pick([]string{"verify", "verify", "tamper", "tamper", "advance", "advance-past-expiry", "revoke", "deactivate-issuer", "presentation", "presentation-tamper", "presentation-foreign", "presentation-self-attested-first", "jwt-kid-of-extending-did", "backdated-with-later-key",
 			"trust-add", "trust-remove", "restart-verifier", "verify-trust-required", "verify-trust-required"}); ev {
 		case "trust-add", "trust-remove":
 			var terr error
@@ -624,6 +626,132 @@ func c01Body(s *simkit.Sim, rc *simkit.RunCtx) {
 			}
 			issuerActive = false
 			event("deactivate issuer")
+		case "jwt-kid-of-extending-did":
+			// a JWT credential of an external did:web issuer, signed with a key of another DID whose identifier extends the
+			// issuer's (did:web:<host> / did:web:<host>:users:m), next to a control signed with the issuer's own key
+			extHost := "issuer-ext.sim"
+			issuerExt, otherExt := "did:web:"+extHost, "did:web:"+extHost+":users:m"
+			k0, k1 := world.NewKey(), world.NewKey()
+			mkDoc := func(id string, key *ecdsa.PrivateKey) []byte {
+				d := did.MustParseDID(id)
+				vm, err := did.NewVerificationMethod(did.DIDURL{DID: d, Fragment: "k"}, ssi.JsonWebKey2020, d, key.Public())
+				if err != nil {
+					return nil
+				}
+				doc := did.Document{Context: []interface{}{did.DIDContextV1URI(), ssi.MustParseURI("https://w3id.org/security/suites/jws-2020/v1")}, ID: d}
+				doc.AddAssertionMethod(vm)
+				b, _ := json.Marshal(doc)
+				return b
+			}
+			docs := map[string][]byte{"/.well-known/did.json": mkDoc(issuerExt, k0), "/users/m/did.json": mkDoc(otherExt, k1)}
+			w.HTTP.Handle(extHost, func(req *http.Request) *http.Response {
+				if b, ok := docs[req.URL.Path]; ok && b != nil {
+					return jsonResp(200, "application/did+json", b, nil)
+				}
+				return jsonResp(404, "text/plain", []byte("not found"), nil)
+			})
+			mkJWT := func(kid string, key *ecdsa.PrivateKey) string {
+				hdr, _ := json.Marshal(map[string]interface{}{"alg": "ES256", "typ": "JWT", "kid": kid})
+				claims, _ := json.Marshal(map[string]interface{}{
+					"iss": issuerExt, "sub": holderDID, "nbf": time.Now().Add(-time.Minute).Unix(), "jti": issuerExt + "#" + fmt.Sprintf("ext-%d", k),
+					"vc": map[string]interface{}{
+						"@context":          []string{"https://www.w3.org/2018/credentials/v1"},
+						"type":              []string{"VerifiableCredential", "ExternalCredential"},
+						"credentialSubject": map[string]interface{}{"id": holderDID},
+					},
+				})
+				in := base64.RawURLEncoding.EncodeToString(hdr) + "." + base64.RawURLEncoding.EncodeToString(claims)
+				return in + "." + world.SignES256(in, key)
+			}
+			verifyJWT := func(tok string) (bool, string) {
+				var code int
+				var rb []byte
+				b, _ := json.Marshal(tok)
+				s.Do("verify-ext", time.Minute, func() {
+					code, rb = ver.Call("POST", "/internal/vcr/v2/verifier/vc", map[string]interface{}{"verifiableCredential": json.RawMessage(b)})
+				})
+				var res struct {
+					Validity bool   `json:"validity"`
+					Message  string `json:"message"`
+				}
+				_ = json.Unmarshal(rb, &res)
+				return code == 200 && res.Validity, fmt.Sprintf("%d %s", code, trunc(string(rb), 200))
+			}
+			okControl, msgControl := verifyJWT(mkJWT(issuerExt+"#k", k0))
+			okForeign, _ := verifyJWT(mkJWT(otherExt+"#k", k1))
+			event(fmt.Sprintf("external JWT credential: own key -> %v, key of a DID extending the issuer's -> %v", okControl, okForeign))
+			if okForeign {
+				s.Fail("C01.verdict", "accepted:key-of-did-extending-issuer", "a JWT credential of %s signed with a key of %s verifies", issuerExt, otherExt)
+				return
+			}
+			if okControl {
+				s.Probes.Inc("external-jwt-credential-accepted")
+			} else {
+				s.Info.Inc("external-jwt-control-refused")
+				if debugGaps {
+					fmt.Println("EXT control refused:", msgControl)
+				}
+			}
+		case "presentation-self-attested-first":
+			// a presentation whose first credential is a claim of the holder itself (no proof of its own: covered by the
+			// presentation's proof) and whose second one is the issued credential, valid as a control or changed afterwards
+			if nearExpiry() || format != "ldp_vc" {
+				continue
+			}
+			want, why := expect()
+			if (revoked && !revokedKnownBy) || (time.Since(lastDownload) > 14*time.Minute && revoked) {
+				continue
+			}
+			selfAttested, _ := json.Marshal(map[string]interface{}{
+				"@context":          []string{"https://www.w3.org/2018/credentials/v1", "https://nuts.nl/credentials/v1"},
+				"id":                holderDID + "#" + fmt.Sprintf("self-%d", k),
+				"type":              []string{"VerifiableCredential", "DiscoveryRegistrationCredential"},
+				"issuer":            holderDID,
+				"issuanceDate":      time.Now().Add(-time.Second).UTC().Format(time.RFC3339),
+				"credentialSubject": map[string]interface{}{"id": holderDID, "k": "v"},
+			})
+			second := cred
+			tampered := s.D.Decide("self-attested-then", 2) == 1
+			if tampered {
+				second = json.RawMessage(strings.Replace(string(cred), "Caresoft B.V.", "Evilsoft B.V.", 1))
+				if string(second) == string(cred) {
+					continue
+				}
+			}
+			var vp []byte
+			var verr error
+			s.Do("create-vp", time.Minute, func() {
+				// (the wallet API refuses credentials without proof: the holder's operator builds it with the wallet code)
+				vp, verr = iss.BuildLDPresentation([]json.RawMessage{selfAttested, second}, holderDID, time.Now().Add(10*time.Minute))
+			})
+			if verr != nil {
+				s.Info.Inc("self-attested-presentation-not-created")
+				if debugGaps {
+					fmt.Println("SELF-ATTESTED vp not created:", verr)
+				}
+				continue
+			}
+			ok, msg := verifyVP(vp)
+			event(fmt.Sprintf("presentation [holder's own claim, credential tampered=%v] -> %v", tampered, ok))
+			if tampered && ok {
+				s.Fail("C01.tamper", "presentation:credential-after-self-attested", "a presentation with a holder claim followed by a credential changed after signing verifies")
+				return
+			}
+			if !tampered {
+				if ok != want {
+					if want {
+						s.Info.Inc("self-attested-control-refused")
+						if debugGaps {
+							fmt.Println("SELF-ATTESTED control refused:", msg)
+						}
+					} else {
+						s.Fail("C01.verdict", "presentation-accepted:"+why, "presentation with a holder claim and the credential verified=true, model says false (%s)", why)
+						return
+					}
+				} else if ok {
+					s.Probes.Inc("presentation-with-self-attested-credential-accepted")
+				}
+			}
 		case "presentation", "presentation-tamper", "presentation-foreign":
 			if nearExpiry() {
 				continue
